@@ -464,6 +464,14 @@ fn resolve(loc: &Located, path: &str, what: &str) -> Result<Res, String> {
             scope = nd.r;
             cur_stmt = enclosing_stmt(&loc.nodes, nd.r);
             cur = Some(nd.clone());
+        } else if *p == "cond" {
+            match &cur {
+                Some(Node { kind: Kind::If { cond, .. }, .. }) => {
+                    scope = *cond;
+                    cur = Some(Node { kind: Kind::Block, r: scope });
+                }
+                _ => nf!(),
+            }
         } else if *p == "then" || *p == "else" {
             match &cur {
                 Some(Node { kind: Kind::If { then, els, .. }, .. }) => {
@@ -913,9 +921,9 @@ fn main() {
         }
     }
     let plain = cmds.iter().any(|c| matches!(c, Cmd::Plain));
-    let mut header = String::from("// GENERATED by vx from /repo on every run — do not edit\n#![allow(unused)]\n");
+    let mut header = String::from("// GENERATED by vx from /repo on every run — do not edit\n");
     if !plain {
-        header.push_str("use vstd::prelude::*;\n");
+        header.push_str("#![allow(unused)]\nuse vstd::prelude::*;\n");
     }
     for u in &uses {
         let _ = writeln!(header, "use {u};");
